@@ -6,7 +6,7 @@
     distinct.  Integers, nesting depth, key order and key text are unrestricted.
     [check_valid] (the validity check, DV.Content) is universally quantified in the structure theorems. *)
 From Coq Require Import List ZArith NArith.
-From DV Require Import Common.Str Common.Jv Common.Res Json.Model Json.ProofsNum Json.ProofsCodec Json.ProofsStruct.
+From DV Require Import Common.Str Common.Jv Common.Res Json.Model Json.ProofsNum Json.ProofsCodec Json.ProofsUtf8 Json.ProofsStruct.
 Import ListNotations.
 
 (* ---------------------------------------------------------------- text codec *)
@@ -68,11 +68,34 @@ Example C09_from_runtime_repr_iff_valid_nonvacuous :
 Proof. split; reflexivity. Qed.
 
 Theorem C09_str_is_json : forall (check_valid : jv -> res unit) e s,
-  to_json check_valid e = Ok s -> to_str e = s.
+  wf e -> to_json check_valid e = Ok s -> to_str e = Ok s.
 Proof. exact str_is_json. Qed.
 
-Example C09_str_is_json_nonvacuous : to_json sample_check sample = Ok (to_str sample).
-Proof. reflexivity. Qed.
+Example C09_str_is_json_nonvacuous :
+  wf sample /\ to_json sample_check sample = Ok (print sample) /\ to_str sample = Ok (print sample).
+Proof. split; [exact sample_wf | split; vm_compute; reflexivity]. Qed.
+
+(* ---------------------------------------------------------------- bytes: _mangle / _unmangle are UTF-8 *)
+
+Theorem C09_utf8_roundtrip : forall s, forallb scalar s = true -> utf8_decode (utf8_encode s) = Some s.
+Proof. exact utf8_decode_encode. Qed.
+
+Example C09_utf8_roundtrip_nonvacuous :
+  utf8_encode [65; 233; 8364; 65535; 128512; 1114111]%N
+  = [65; 195; 169; 226; 130; 172; 239; 191; 191; 240; 159; 152; 128; 244; 143; 191; 191]%N
+  /\ utf8_decode (utf8_encode [65; 233; 8364; 65535; 128512; 1114111]%N) = Some [65; 233; 8364; 65535; 128512; 1114111]%N
+  /\ utf8_decode [192; 128]%N = None /\ utf8_decode [237; 160; 128]%N = None /\ utf8_decode [244; 144; 128; 128]%N = None.
+Proof. repeat split; vm_compute; reflexivity. Qed.
+
+Theorem C09_mangle_is_ascii_json : forall e, wf e ->
+  mangle e = print e /\ forallb (fun c => N.ltb c 128) (print e) = true /\ unmangle (mangle e) = Some e.
+Proof.
+  intros e Hwf. split; [exact (mangle_print e Hwf) | split; [exact (print_ascii e 0%nat Hwf) | exact (unmangle_mangle e Hwf)]].
+Qed.
+
+Example C09_mangle_is_ascii_json_nonvacuous :
+  wf sample /\ mangle sample = print sample /\ unmangle (mangle sample) = Some sample.
+Proof. split; [exact sample_wf | split; vm_compute; reflexivity]. Qed.
 
 Theorem C09_constructors_agree :
   forall (check_valid : jv -> res unit) (store : str -> option str),
